@@ -32,14 +32,14 @@ ADDRS = {"A": [b"\x0a\x00\x00\x05", b"\x0a\x00\x00\x06"], "AAAA": [b"\xfe\x80" +
 
 def floors(tier):
     q = tier == "quick"
-    return {"c18.deadline": 500 if q else 50000, "c18.model": 500 if q else 50000, "c18.hook_reads": 1000 if q else 100000, "c18.transmissions": 500 if q else 50000}
+    return {"c18.deadline": 8000 if q else 1000000, "c18.model": 8000 if q else 1000000, "c18.hook_reads": 15000 if q else 2000000, "c18.transmissions": 8000 if q else 1000000}
 
 
 def plan(tier, seed):
     if tier == "quick":
-        n, per = 16, 60
+        n, per = 16, 600
     else:
-        n, per = 64, 1800
+        n, per = 64, 18000
     return [{"seed": seed, "shard": i, "per": per, "tier": tier} for i in range(n)]
 
 
